@@ -58,12 +58,76 @@ class _Linalg:
         return getattr(np.linalg, name)
 
 
+class StoreBase(np.ndarray):
+    """memory of a stand-in for an ndarray subclass instance (object dtype, symbolic leaves): `setfield(values, dtype=float)`
+    -- the idiom beyond uses to overwrite all coordinates in place -- stores the values; every write is logged"""
+
+    def __new__(cls, values):
+        vals = list(values)
+        a = np.ndarray.__new__(cls, (len(vals),), dtype=object)
+        for i, v in enumerate(vals):
+            np.ndarray.__setitem__(a, i, v)
+        a.writes = []
+        return a
+
+    def __array_finalize__(self, obj):
+        self.writes = getattr(obj, "writes", [])
+
+    def setfield(self, val, dtype=None, offset=0):
+        val = np.asarray(val, dtype=object)
+        if offset or val.shape != self.shape:
+            raise sym.EngineLimit("setfield on a stand-in array with an offset / another shape")
+        self.writes.append(("setfield", tuple(val.ravel())))
+        for i, v in enumerate(val.ravel()):
+            np.ndarray.__setitem__(self, i, v)
+
+    def __setitem__(self, k, v):
+        self.writes.append(("setitem", k, v))
+        np.ndarray.__setitem__(self, k, v)
+
+
+def make_store(values):
+    """(view, base): `view.base is base`, as for an ndarray subclass instance created over a buffer"""
+    base = StoreBase(values)
+    return base.view(), base
+
+
+class _NDMeta(type):
+    def __instancecheck__(cls, x):
+        return isinstance(x, np.ndarray)
+
+    def __subclasscheck__(cls, x):
+        return issubclass(x, np.ndarray)
+
+    def __getattr__(cls, name):
+        return getattr(np.ndarray, name)
+
+
+def _ndarray_proxy(owner):
+    class ndarray(metaclass=_NDMeta):
+        """np.ndarray as seen by shadow code: `np.ndarray.__new__(cls, shape, buffer=..., dtype=...)` for a stand-in class
+        builds a stand-in instance over its own store (hook 'ndarray_new'); everything else is numpy's"""
+        __pv_real__ = np.ndarray
+
+        def __new__(cls, *a, **k):
+            if hasattr(cls, "_pv_real"):
+                h = owner.hooks.get("ndarray_new")
+                if h is None:
+                    raise sym.EngineLimit("np.ndarray.__new__ for a stand-in class without a hook")
+                return h(cls, *a, **k)
+            if cls is ndarray:
+                return np.ndarray(*a, **k)
+            return np.ndarray.__new__(cls, *a, **k)
+    return ndarray
+
+
 class NP:
     """stand-in for the numpy module inside shadow namespaces"""
 
     def __init__(self):
         self.hooks = {}
         self.linalg = _Linalg(self)
+        self.ndarray = _ndarray_proxy(self)
 
     def __getattr__(self, name):
         return getattr(np, name)
